@@ -1855,3 +1855,90 @@ func scenTransferTimeoutPendingAction(e *engineA) error {
 	e.sleepHB(3, 6)
 	return e.finish()
 }
+
+func init() { scenarios["leader-after-install"] = scenLeaderAfterInstall }
+
+// scenLeaderAfterInstall (C17 / C09): a node that was itself brought up to
+// date by snapshot installation (so its log begins exactly at its snapshot)
+// becomes leader and has to bring another node up to date that needs the
+// snapshot too (a new node, or one that fell behind the compaction).
+func scenLeaderAfterInstall(e *engineA) error {
+	e.prof = profiles["snapshot"]
+	if err := e.boot(3); err != nil {
+		return err
+	}
+	e.cl.startInfoSampler(e.hb() / 2)
+	l := e.cl.leader()
+	if l == nil {
+		return fmt.Errorf("no leader")
+	}
+	pad := 90 + 10*e.rng.Intn(4)
+	for i := 0; i < 5+e.rng.Intn(10); i++ {
+		e.cl.fsmOpPad(1, l, "update", pad)
+	}
+	fs := e.others(l)
+	f, o := fs[0], fs[1]
+	e.rc.emit(&ev.Rec{K: "fault", Op: "install-then-lead", Nid: f.nid})
+	e.isolate(f, true)
+	for i := 0; i < 20+e.rng.Intn(30); i++ {
+		if r := e.cl.fsmOpPad(1, l, "update", pad); !r.ok {
+			break
+		}
+	}
+	e.sleepHB(4, 5)
+	e.cl.takeSnapshot(l, 0)
+	e.waitFor(30, func() bool {
+		info, ok := l.info(false)
+		return ok && info.FirstLogIndex > 4
+	})
+	e.isolate(f, false)
+	// f installs the snapshot: its log now begins at its snapshot index
+	e.waitFor(60, func() bool {
+		a, ok1 := f.info(false)
+		b, ok2 := l.info(false)
+		return ok1 && ok2 && a.Committed >= b.Committed
+	})
+	if e.rng.Intn(3) != 0 {
+		// and it catches up completely before it takes over
+		for i := 0; i < e.rng.Intn(5); i++ {
+			e.cl.fsmOpPad(1, l, "update", pad)
+		}
+	}
+	e.cl.transfer(l, f.nid, 20*e.hb())
+	e.sleepHB(2, 3)
+	nl := e.cl.waitLeader(100 * e.hb())
+	if nl == nil {
+		return fmt.Errorf("no leader after the transfer")
+	}
+	// someone who needs everything from the start
+	switch e.rng.Intn(2) {
+	case 0:
+		id := uint64(4)
+		if _, err := e.cl.start(id, e.cl.dirOf(id)); err != nil {
+			return err
+		}
+		e.ids = append(e.ids, id)
+		e.cl.changeConfig(nl, "add(4,promote=true)", func(c *raft.Config) error {
+			return c.AddNonvoter(id, e.cl.addrOf(id), true)
+		})
+	case 1:
+		// the other follower loses its disk... no: it simply falls behind
+		// another compaction under the new leader
+		e.isolate(o, true)
+		for i := 0; i < 20+e.rng.Intn(20); i++ {
+			if r := e.cl.fsmOpPad(1, nl, "update", pad); !r.ok {
+				break
+			}
+		}
+		e.sleepHB(4, 5)
+		e.cl.takeSnapshot(nl, 0)
+		e.sleepHB(2, 3)
+		e.isolate(o, false)
+	}
+	for i := 0; i < 3; i++ {
+		e.cl.fsmOpPad(1, nl, "update", pad)
+	}
+	e.startClients(2, map[string]int{"update": 3, "read": 1})
+	e.sleepHB(4, 8)
+	return e.finish()
+}
